@@ -48,6 +48,7 @@ type FuncContract struct {
 	Lets     []*SpecDef
 	Loops    map[int]*LoopSpec
 	Asserts  []*AssertSpec
+	SafetyProps []string
 	Safety   map[string]bool
 	Inline   bool
 	Atomic   string // mutex field name if the body is a monitor operation
@@ -383,7 +384,12 @@ func (cs *Contracts) loadFile(path, pkg string) error {
 			hi, _ := strconv.Atoi(m[4])
 			curF.Splits[m[1]] = &SplitSpec{Expr: ex, Lo: lo, Hi: hi}
 		case "safety":
+			// safety [C20] index nil … : the generated safety obligations serve only the listed properties
 			for _, k := range strings.Fields(rest) {
+				if strings.HasPrefix(k, "[") || strings.HasSuffix(k, "]") {
+					curF.SafetyProps = append(curF.SafetyProps, strings.Trim(k, "[]"))
+					continue
+				}
 				curF.Safety[k] = true
 			}
 		case "inline":
